@@ -54,10 +54,13 @@ type Run struct {
 	knownHit map[string]int
 	known    []KnownFinding
 	incon    []string
-	Rule     string
-	Assume   []string
-	MaxViol  int
-	aborted  atomic.Bool
+	// cases that were not judged (see InconclusiveCase)
+	inconCases []string
+	inconCaseN int
+	Rule       string
+	Assume     []string
+	MaxViol    int
+	aborted    atomic.Bool
 }
 
 // Flags common command line flags of the vrun sub-commands
@@ -195,6 +198,18 @@ func (r *Run) Inconclusive(reason string) {
 	r.mu.Unlock()
 }
 
+// InconclusiveCase: one case could not be brought into the state it is meant to judge (a watchdog of the
+// harness fired, a scratch process did not start). The case is not judged and is reported separately;
+// the run as a whole stays conclusive as long as such cases are few.
+func (r *Run) InconclusiveCase(reason string) {
+	r.mu.Lock()
+	r.inconCaseN++
+	if len(r.inconCases) < 50 {
+		r.inconCases = append(r.inconCases, reason)
+	}
+	r.mu.Unlock()
+}
+
 // Violations so far (unlisted ones)
 func (r *Run) Violations() int {
 	r.mu.Lock()
@@ -325,6 +340,10 @@ func (r *Run) Finish() int {
 	}
 	sort.Strings(kf)
 	cov["known_findings"] = kf
+	if r.inconCaseN > 0 {
+		cov["inconclusive_cases_not_judged"] = r.inconCaseN
+		cov["inconclusive_case_reasons"] = r.inconCases
+	}
 	if len(r.incon) > 0 {
 		cov["inconclusive"] = r.incon
 	}
@@ -354,6 +373,17 @@ func (r *Run) Finish() int {
 	}
 	if unlisted > 0 {
 		return 1
+	}
+	for _, s := range r.inconCases {
+		fmt.Println("INCONCLUSIVE-CASE (not judged):", s)
+	}
+	// a few cases that could not be set up do not make the run inconclusive; many do
+	limit := 3
+	if n := len(r.distinct) / 20; n > limit {
+		limit = n
+	}
+	if r.inconCaseN > limit {
+		r.incon = append(r.incon, fmt.Sprintf("%d cases could not be judged (limit %d)", r.inconCaseN, limit))
 	}
 	if len(r.incon) > 0 {
 		for _, s := range r.incon {
